@@ -222,10 +222,11 @@ Definition strip_raw (text : str) : str := strip_raw_ord code_values text.
 (* ---- auxiliary: when does the result of TrimFmt not depend on the map order? ----------
    `strip_tokens names s` deletes, in one left-to-right pass, every occurrence of a
    pattern {name} present in s itself.  If what is left contains no pattern any more, no
-   deletion can make a new pattern appear and every order gives that same text
-   (`trim_stable`).  Otherwise ("{b{i}}") the Go function's result depends on the map
-   iteration order; the correspondence suite fmt.trim prints "unstable" for such inputs
-   on both sides instead of comparing one arbitrary order. *)
+   deletion can make a new pattern appear and every order of `names` gives that same
+   text.  TrimFmt runs two such phases (all colours in some order, then all codes in some
+   order): `trim_stable` asks this of both.  Otherwise ("{b{i}}") the Go function's result
+   depends on the map iteration order; the correspondence suite fmt.trim prints "unstable"
+   for such inputs on both sides instead of comparing one arbitrary order. *)
 Fixpoint match_any (names : list str) (s : str) : option nat :=
   match names with
   | [] => None
@@ -250,5 +251,10 @@ Definition strip_tokens (names : list str) (s : str) : str := strip_tokens_aux n
 Definition has_token (names : list str) (s : str) : bool :=
   existsb (fun n => contains (tok_pat n) s) names.
 
-Definition trim_stable (names : list str) (s : str) : bool :=
-  negb (has_token names (strip_tokens names s)).
+Definition color_names : list str := List.map fst fmt_colors.
+Definition code_names : list str := List.map fst fmt_codes.
+
+Definition trim_stable (s : str) : bool :=
+  let s1 := strip_tokens color_names s in
+  negb (has_token color_names s1) &&
+  negb (has_token code_names (strip_tokens code_names s1)).
